@@ -576,8 +576,8 @@ func convOracle(c ConvCase, o *h.Obs) *h.Fail {
 	s := newScript()
 	a := s.argExpr(c.A)
 	var x interface{}
-	if c.A.Prov == "go" {
-		x = s.hostValue(a) // the very object the script sees (identity for pointers, channels)
+	if strings.HasPrefix(c.A.Prov, "go") {
+		x = s.hostValue(s.lastGo) // the very object the script sees (identity for pointers, channels)
 	} else {
 		x = goValue(c.A.V)
 	}
